@@ -470,9 +470,11 @@ func (c *Ctx) checkDeterministic() {
 						} else if callee.Pkg != nil && forbiddenPkg[callee.Pkg.Pkg.Path()] {
 							bad = append(bad, c.posStr(in.Pos())+": call of "+callee.String())
 						} else if callee.String() == "(*sync.Pool).Get" {
-							// recycled storage carries whatever the previous key left in it; that every byte read was
-							// overwritten first is not something this rule can establish
-							bad = append(bad, c.posStr(in.Pos())+": storage recycled through sync.Pool in "+c.fname(f)+" (its content depends on the keys hashed before)")
+							// recycled storage carries whatever the previous key left in it: every byte handed on must have
+							// been overwritten on the path first
+							if why := c.pooledBytesUnwritten(f); why != "" {
+								bad = append(bad, c.posStr(in.Pos())+": storage recycled through sync.Pool in "+c.fname(f)+": "+why)
+							}
 						}
 					case *ssa.MakeClosure:
 						if f2, ok := in.Fn.(*ssa.Function); ok {
@@ -906,3 +908,106 @@ func recvNamedOfBound(f *ssa.Function) *types.Named {
 }
 
 var _ = constant.MakeInt64
+
+// pooledBytesUnwritten walks the paths of f, which takes a byte array from a sync.Pool: on every path, each slice of
+// that array handed to another function must lie within the prefix the path has written (binary.*Endian.PutUintNN
+// at offset 0, element stores at constant indexes). Returns "" when that holds, otherwise what was found.
+func (c *Ctx) pooledBytesUnwritten(f *ssa.Function) string {
+	traces, complete := c.Trace(f, TraceConfig{})
+	if !complete || len(traces) == 0 {
+		return "paths not enumerated"
+	}
+	sliceOver := func(a *Sym, buf string) (lo, n int64, ok bool) {
+		// a slice expression over the pooled array: offset and length when constant
+		if a == nil || a.Kind != KOp || a.Name != "slice" || len(a.Args) < 3 || !strings.Contains(a.Args[0].Key(), buf) {
+			return 0, 0, false
+		}
+		var arrLen int64 = -1
+		if a.Args[0].Typ != nil {
+			if pt, isP := a.Args[0].Typ.Underlying().(*types.Pointer); isP {
+				if arr, isA := pt.Elem().Underlying().(*types.Array); isA {
+					arrLen = arr.Len()
+				}
+			}
+		}
+		if arrLen < 0 {
+			return 0, 0, false
+		}
+		hi := arrLen
+		if a.Args[1].Name != "none" {
+			v, isC := a.Args[1].intConst()
+			if !isC {
+				return 0, 0, false
+			}
+			lo = v
+		}
+		if a.Args[2].Name != "none" {
+			v, isC := a.Args[2].intConst()
+			if !isC {
+				return 0, 0, false
+			}
+			hi = v
+		}
+		return lo, hi - lo, true
+	}
+	for _, t := range traces {
+		buf := ""
+		var written int64
+		for _, e := range t.Events {
+			if e.Kind != EvCall && e.Kind != EvStore {
+				continue
+			}
+			if e.Kind == EvCall && e.callName() == "(*sync.Pool).Get" && e.Res != nil {
+				buf, written = e.Res.Key(), 0
+				continue
+			}
+			if buf == "" {
+				continue
+			}
+			if e.Kind == EvStore {
+				if e.Addr.Kind == KIndexAddr && strings.Contains(e.Addr.Args[0].Key(), buf) {
+					i, isC := e.Addr.Args[1].intConst()
+					if !isC {
+						return "a byte of the pooled buffer is written at a position that is not constant"
+					}
+					if i <= written && i+1 > written {
+						written = i + 1
+					}
+				}
+				continue
+			}
+			n := e.callName()
+			if n == "(*sync.Pool).Put" {
+				continue
+			}
+			width := int64(0)
+			switch {
+			case strings.HasSuffix(n, "Endian).PutUint16"):
+				width = 2
+			case strings.HasSuffix(n, "Endian).PutUint32"):
+				width = 4
+			case strings.HasSuffix(n, "Endian).PutUint64"):
+				width = 8
+			}
+			for ai, a := range e.Args {
+				if !strings.Contains(a.Key(), buf) {
+					continue
+				}
+				lo, ln, ok := sliceOver(a, buf)
+				if !ok {
+					return "the pooled buffer is handed to " + n + " in a form whose extent is not constant"
+				}
+				if width > 0 && ai == 1 {
+					if lo <= written && ln >= width && lo+width > written {
+						written = lo + width
+					}
+					continue
+				}
+				if lo+ln > written {
+					return fmt.Sprintf("%s is given bytes [%d,%d) of the pooled buffer while the path has written only the first %d: the rest is left over from the keys hashed before", n, lo, lo+ln, written)
+				}
+			}
+		}
+	}
+	return ""
+}
